@@ -296,6 +296,9 @@ func (g *Genome) mutateAddLink(innovations InnovationsObserver, generation int, 
 		// Now add the new Gene to the Genome
 		if gene != nil {
 			g.geneInsert(gene)
+			// the network built above (or earlier) does not have the new link: drop it, so that nobody takes it for
+			// the phenotype of the mutated genome
+			g.Phenotype = nil
 		}
 	}
 
